@@ -98,6 +98,15 @@ def explore_expand(P, u):
         ctx.emit('call', 'read_macro_args', args, n.line, res)
         return res
 
+    summ = creator_summaries(P, u)
+    # a dynamic-macro handler returns new_num_token(.., t) / new_str_token(.., t) (R19.2 handler-returns-fresh-token) where t is
+    # the macro token or the end of its origin chain: a flag those creators copy from t is not attributable here
+    hsumm = {}
+    for f in FLAGS:
+        ds = set(summ[c][f] for c in ('new_num_token', 'new_str_token'))
+        d = ds.pop() if len(ds) == 1 else ('other', 'new_num_token and new_str_token differ')
+        hsumm[f] = d if d[0] in ('fresh', 'const') else ('other', 'taken from the template token')
+
     class EI(PInterp):
         def e_CallExpr(self, n, env):
             if n.callee() is None:
@@ -110,7 +119,7 @@ def explore_expand(P, u):
                     if isinstance(r, View):
                         for c in r.cell.cands:
                             if isinstance(c, Obj):
-                                c.fields['at_bol'] = 1; c.fields['has_space'] = 0; c.meta['fresh'] = True
+                                apply_creator_flags(self, self.ctx, c, hsumm, [], 'handler')
                     self.ctx.emit('icallres', r, ev[-1][2], n.line, ev[-1][1])
                 return r
             return super().e_CallExpr(n, env)
@@ -154,12 +163,13 @@ def explore_subst(P, u, loop_limit=2):
         ctx.emit('call', 'read_macro_arg_one', args, n.line, res)
         return res
 
+    summ = creator_summaries(P, u)
+
     def fresh_token(it, ctx, n, args, name):
-        # stringize()/paste() return the first token of tokenize(new_file(..)): at_bol = true, has_space = false
+        # stringize()/paste() return the first token of tokenize(new_file(..)): at_bol = true, has_space = false,
+        # unless the creator itself writes the flags afterwards (creator_flags)
         res = Obj('Token', lazy=True, label=ctx.fresh(name))
-        res.fields['at_bol'] = 1
-        res.fields['has_space'] = 0
-        res.meta['fresh'] = True
+        apply_creator_flags(it, ctx, res, summ[name], args, name)
         return res
 
     def cut_stringize(it, ctx, n, args):
@@ -174,6 +184,7 @@ def explore_subst(P, u, loop_limit=2):
         if isinstance(lhs, Obj):
             res.meta['lhs'] = lhs
             res.meta['lhs_flags'] = {f: it.read_field(lhs, f) for f in ('at_bol', 'has_space')}
+            res.meta['lhs_copy_of'] = lhs.meta.get('copy_of')      # (a struct assignment `*cur = *paste(..)` replaces cur's meta)
         ctx.emit('call', 'paste', args, n.line, res)
         return res
 
@@ -226,12 +237,12 @@ def explore_subst_shared(P, u, body_classes, loop_limit=2):
         ctx.emit('call', 'find_arg', [args[0], t], n.line, r)
         return r
 
+    summ = creator_summaries(P, u)
+
     def fresh(name):
         def cut(it, ctx, n, args):
             res = Obj('Token', lazy=True, label=ctx.fresh(name))
-            res.fields['at_bol'] = 1
-            res.fields['has_space'] = 0
-            res.meta['fresh'] = True
+            apply_creator_flags(it, ctx, res, summ[name], args, name)
             ctx.emit('call', name, args, n.line, res)
             return res
         return cut
@@ -345,3 +356,262 @@ class SubstPath:
 
     def name(self, t):
         return strip_ids(t.label or '?') if t is not None else '-'
+
+
+# ------------------------------------------------- flags of tokens made by creator functions ---
+FLAGS = ('at_bol', 'has_space')
+FRESH = {'at_bol': 1, 'has_space': 0}       # first token of tokenize() on a new buffer (R19.2 tokenize:buffer-starts-at-bol)
+CREATOR_OPAQUE = ['tokenize', 'new_file', 'quote_string', 'join_tokens', 'stat', 'ctime_r']
+
+
+def creator_flags(P, u, fname):
+    """What `fname` (paste, stringize, new_str_token, new_num_token: functions that return the first token of a fresh
+    tokenize() buffer) leaves in at_bol / has_space of the token it returns, decided over all returning paths with the
+    callees it reaches interpreted (only tokenize/new_file/quote_string/join_tokens/format stay opaque):
+        {flag: ('fresh',) | ('const', int) | ('arg', index, flag-of-that-token-argument) | ('other', text)}
+    'fresh' = never written after tokenize(): the value tokenize gives the first token of a buffer."""
+    from .lib_c09 import as_obj
+    if fname not in u.functions:
+        raise AnalysisBroken('anchor function %s vanished from %s' % (fname, U))
+    params = u.params(fname)
+    it = PInterp(P, u, {'opaque': [c for c in CREATOR_OPAQUE if c != fname], 'cut': {'format': None}, 'track_stores': True, 'loop_limit': 1})
+    box = {}
+
+    def mk(ctx):
+        a = [Obj('Token', lazy=True, label=p.name or 'tok') if (p.type or '').replace(' ', '') == 'Token*' else Sym(p.name or 'a', p.type) for p in params]
+        ctx.args_ = a
+        return a
+    res = {}
+    n = 0
+    for ctx, out in it.explore(fname, mk, max_paths=2000):
+        if out[0] != 'ret':
+            continue
+        t = as_obj(it, out[1])
+        if not isinstance(t, Obj):
+            raise AnalysisBroken('%s returns something that is not a token object' % fname)
+        n += 1
+        for f in FLAGS:
+            st = [e for e in ctx.events if e[0] == 'fstore' and e[1] is t and e[2] == f]
+            if not st:
+                d = ('fresh',)
+            else:
+                v = st[-1][4]
+                c = it.settle(v)
+                d = None
+                if isinstance(c, int) and not isinstance(c, bool):
+                    d = ('const', 1 if c else 0)
+                elif isinstance(v, View) and v.tag == 'id':
+                    for i, a in enumerate(ctx.args_):
+                        if not isinstance(a, Obj):
+                            continue
+                        for f2 in FLAGS:
+                            av = a.fields.get(f2)
+                            if isinstance(av, View) and av.cell is v.cell and av.tag == 'id':
+                                d = ('arg', i, f2)
+                if d is None:
+                    d = ('other', strip_ids(repr(v)))
+            if f in res and res[f] != d:
+                d = ('other', 'differs between paths: %s / %s' % (res[f], d))
+            res[f] = d
+    if n == 0:
+        raise AnalysisBroken('%s has no returning path' % fname)
+    return res
+
+
+CREATORS = ('paste', 'stringize', 'new_str_token', 'new_num_token')
+
+
+def creator_summaries(P, u):
+    c = getattr(u, '_c19_creator_summaries', None)
+    if c is None:
+        c = {f: creator_flags(P, u, f) for f in CREATORS}
+        try:
+            u._c19_creator_summaries = c
+        except Exception:
+            pass
+    return c
+
+
+def describe_flag(fname, f, d, params=None):
+    if d[0] == 'fresh':
+        return 'left as tokenize() made it (%s)' % ('true' if FRESH[f] else 'false')
+    if d[0] == 'const':
+        return 'set to %s by %s' % ('true' if d[1] else 'false', fname)
+    if d[0] == 'arg':
+        return 'set by %s to %s of its token argument %d' % (fname, d[2], d[1])
+    return 'set by %s to %s' % (fname, d[1])
+
+
+def apply_creator_flags(it, ctx, res, summary, args, name):
+    """give the result token of a cut creator call the flags the creator's summary says"""
+    from .lib_c09 import as_obj
+    fresh = True
+    for f in FLAGS:
+        d = summary.get(f, ('fresh',))
+        if d[0] == 'fresh':
+            res.fields[f] = FRESH[f]
+            continue
+        fresh = False
+        if d[0] == 'const':
+            res.fields[f] = d[1]
+        elif d[0] == 'arg' and d[1] < len(args) and isinstance(as_obj(it, args[d[1]]), Obj):
+            res.fields[f] = it.read_field(as_obj(it, args[d[1]]), d[2])
+        else:
+            res.fields[f] = Sym(ctx.fresh('%s.%s' % (name, f)), '_Bool')
+    res.meta['fresh'] = fresh
+    res.meta['flag_summary'] = summary
+
+
+# ------------------------------------------------------ white-space skipping arms of tokenize ---
+def _explore_stmt(it, unit, stmt, make_env, max_paths=4000):
+    """explore one statement in isolation: [(ctx, how)] with how in 'fall'|'continue'|'break'|'return'|('noreturn', fn)"""
+    from .interp import NoReturn, Infeasible, NeedChoice, Ctx, _Continue, _Break, _Return
+    out = []
+    stack = [[]]
+    while stack:
+        dec = stack.pop()
+        ctx = Ctx(dec)
+        it.ctx = ctx
+        it.unit = unit
+        try:
+            env = make_env(ctx)
+            try:
+                it.exec(stmt, env)
+                how = 'fall'
+            except _Continue:
+                how = 'continue'
+            except _Break:
+                how = 'break'
+            except _Return:
+                how = 'return'
+            ctx.env = env
+            out.append((ctx, how))
+        except NeedChoice as e:
+            for a in range(e.n - 1, -1, -1):
+                stack.append(dec + [a])
+        except Infeasible:
+            pass
+        except NoReturn as e:
+            out.append((ctx, ('noreturn', e.fn)))
+        if len(out) + len(stack) > max_paths:
+            raise AnalysisBroken('path explosion in a statement of tokenize (line %d)' % stmt.line)
+    return out
+
+
+def _assigns_var(stmt, var_id):
+    for n in stmt.walk():
+        if n.kind in ('BinaryOperator', 'CompoundAssignOperator') and n.opcode and n.opcode.endswith('=') and n.opcode not in ('==', '!=', '<=', '>='):
+            l = n.inner[0].strip()
+            if l.kind == 'DeclRefExpr' and l.ref_id == var_id:
+                return True
+    return False
+
+
+def _arm_kind(ctx):
+    """name of a skipping arm from what it tested (semantic literals only)"""
+    for e in ctx.events:
+        if e[0] == 'call' and e[1] == 'startswith' and len(e[2]) == 2 and isinstance(e[2][1], str):
+            r = e[4]
+            v = r.cell.cands if isinstance(r, View) else None
+            if v == [1]:
+                return {'//': 'line-comment', '/*': 'block-comment'}.get(e[2][1], 'skip(%s)' % e[2][1])
+    for k, v in ctx.bounds.items():
+        if v[0] == v[1] == 10:
+            return 'newline'
+    for e in ctx.events:
+        if e[0] == 'call' and e[1] == 'isspace':
+            return 'blank'
+    if any('_ISspace' in repr(k) for k in ctx.facts):      # glibc: isspace() is a table lookup masked with _ISspace
+        return 'blank'
+    return 'skip'
+
+
+SKIP_INITS = ((0, 0), (1, 0), (1, 1), (0, 1))
+SKIP_KINDS = ('blank', 'newline', 'line-comment', 'block-comment')
+
+
+def cut_new_token_flags(it_, ctx, n_, args):
+    """new_token by contract (checked on new_token itself): records the tokenizer's two flags, then clears them"""
+    g = ctx.globals
+    snap = tuple(it_.settle(g.get(f)) if f in g else None for f in FLAGS)
+    res = Obj('Token', lazy=True, label=ctx.fresh('token'))
+    ctx.emit('call', 'new_token', args, n_.line, res, snap)
+    g['at_bol'] = 0
+    g['has_space'] = 0
+    return res
+
+
+def explore_skip_arms(P, u):
+    """Every statement of tokenize()'s main loop that consumes input without creating a token, explored in isolation from
+    each initial state of the file-scope flags (at_bol, has_space). Returns (arms, problems):
+    arms = [{'kind', 'init', 'final': (at_bol, has_space), 'trail', 'line'}], problems = [(line, text)]."""
+    for f in ('tokenize', 'new_token'):
+        if f not in u.functions:
+            raise AnalysisBroken('anchor %s vanished from tokenize.c' % f)
+    for g in FLAGS:
+        if g not in u.globals:
+            raise AnalysisBroken('the tokenizer no longer keeps the flag %s in a file-scope variable' % g)
+    fn = u.fn('tokenize')
+    loops = [w for w in fn.walk() if w.kind == 'WhileStmt']
+    locals_ = [d for d in fn.walk() if d.kind == 'VarDecl' and d.enclosing('WhileStmt') is None and d.enclosing('ForStmt') is None]
+    # list cursor(s): locals of type Token * ; scan pointer: the char * local initialised from file->contents
+    cur_decl = [d for d in locals_ if (d.type or '').replace(' ', '') == 'Token*']
+    pvar = [d for d in locals_ if (d.type or '').replace(' ', '') == 'char*' and any(m.kind == 'MemberExpr' and m.name == 'contents' for m in d.walk())]
+    if not loops or not cur_decl or len(pvar) != 1:
+        raise AnalysisBroken('tokenize: main loop / list cursor / scan pointer not found')
+    loop = loops[0]
+    body = loop.inner[1]
+    stmts = body.inner if body.kind == 'CompoundStmt' else [body]
+    cur_ids, p_id = set(d.id for d in cur_decl), pvar[0].id
+    it3 = PInterp(P, u, {'opaque': ['startswith', 'strstr', 'isspace', 'isdigit', 'isalnum', 'strchr', 'read_ident', 'read_punct'],
+                         'cut': {'new_token': cut_new_token_flags}, 'loop_limit': 1})
+    arms, problems = [], []
+    for st in stmts:
+        if any(_assigns_var(st, c) for c in cur_ids) or st.calls('new_token'):
+            continue        # creates a token
+        for init in SKIP_INITS:
+            def mkenv(ctx, init=init):
+                env = {}
+                for d in locals_:
+                    env[d.id] = Sym(d.name or 'local', d.type)
+                env[p_id] = Sym('p', 'char *')
+                ctx.globals['at_bol'] = init[0]
+                ctx.globals['has_space'] = init[1]
+                return env
+            try:
+                paths = _explore_stmt(it3, u, st, mkenv)
+            except AnalysisBroken as e:
+                problems.append((st.line, str(e)))
+                continue
+            for ctx, how in paths:
+                if isinstance(how, tuple):
+                    continue
+                pv = ctx.env.get(p_id)
+                moved = not (isinstance(pv, Sym) and pv.name == 'p')
+                if not moved:
+                    continue
+                if how not in ('continue',):
+                    continue
+                arms.append({'kind': _arm_kind(ctx), 'init': init, 'line': st.line, 'trail': ctx.trail,
+                             'final': (it3.settle(ctx.globals.get('at_bol')), it3.settle(ctx.globals.get('has_space')))})
+    return arms, problems
+
+
+def new_token_flag_facts(P, u):
+    """per returning path of tokenize.c:new_token: {flag: (stored-into-the-token?, cleared-afterwards?, stored value, global after)}"""
+    from .lib_c09 import as_obj
+    if 'new_token' not in u.functions:
+        raise AnalysisBroken('anchor new_token vanished from tokenize.c')
+    it = PInterp(P, u, {'track_stores': True, 'globals': {'current_file': lambda ctx: Obj('File', lazy=True, label='current_file')}})
+    out = []
+    for ctx, o in it.explore('new_token', lambda ctx: [u.enums.get('TK_IDENT', 0), Sym('start', 'char *'), Sym('end', 'char *')]):
+        if o[0] != 'ret':
+            continue
+        t = as_obj(it, o[1])
+        d = {}
+        for f in FLAGS:
+            v = t.fields.get(f) if isinstance(t, Obj) else None
+            g = it.settle(ctx.globals.get(f))
+            d[f] = (isinstance(v, View) and v.tag == 'id' and v.cell.label == 'g:' + f, isinstance(g, int) and g == 0, v, g)
+        out.append((ctx.trail, d))
+    return out
